@@ -25,7 +25,12 @@ for (s_, x_, l1, l2) in [(s_, x_, l1, l2) for s_ in (0, 1, 3) for x_ in (0, 1) f
        tiers=('quick', 'thorough') if (x_ == 0 and l2 == 1) or (s_ == 3 and l1 == 2) else ('thorough',),
        bound='buffer of %d bytes with %d spare capacity, any read offset, any maxSize (64-bit), feeds of %d then %d bytes, all contents' % (s_, x_, l1, l2),
        desc='(a) ArrayStreamBuf::feed via ParserBase::feed: a feed is refused iff accumulated + len > maxSize (any 64-bit maxSize), a refused feed changes nothing, an accepted one appends in order'))
-ASSUMPTIONS = ['(b) sel mode: peers map, idle-peer vector, shared/weak pointers are ghost models; Handler::getParser / ParserBase::step / Step::id return the symbolic per-peer values; ResponseWriter, send() and Promise::then() are recording stubs',
+# (c) the 413 path: Handler::onInput (harness and unit shared with C04)
+import importlib.util as _iu, os as _os
+_sp = _iu.spec_from_file_location('prop_C04_for_C14', _os.path.join(_os.path.dirname(_os.path.abspath(__file__)), 'C04.py')); _c04 = _iu.module_from_spec(_sp); _sp.loader.exec_module(_c04)
+UNITS['oninput'] = _c04.UNITS['oninput']
+HARNESSES += [dict(h, desc='(c) a request whose bytes the parser refuses (size limit) is answered 413 exactly once and is never handed to the handler; a request within the limit is never refused by onInput itself') for h in _c04.HARNESSES if h['name'] == 'on_input']
+ASSUMPTIONS = ['(c) Handler::onInput harness: as listed for C04 (parser, response writer and user handler are recording stubs)', '(b) sel mode: peers map, idle-peer vector, shared/weak pointers are ghost models; Handler::getParser / ParserBase::step / Step::id return the symbolic per-peer values; ResponseWriter, send() and Promise::then() are recording stubs',
                '(b) steady_clock::now() is an arbitrary non-decreasing instant >= every start time; time-outs are bounded as stated per harness (the ms->ns multiplication makes the SAT query exponential in the time-out width; larger time-outs take the same instructions and cannot overflow below 2^43 ms)',
                '(a) as C01 lemma L1 (feed harness): exact-size vector storage, any maxSize']
 OUTSIDE = ['the 500 ms timer tick and how long after expiry the 408 appears', 'the 413 response path through Handler::onInput', 'propagation of the options to every worker (plain setters)', 'closing of the socket by removePeer (C08)']
